@@ -10,10 +10,12 @@ No hook in the repository is used.  Control is gained from outside:
   * optionally (`fine=True`) every source line executed inside pyipmi/interfaces/rmcp.py
     and pyipmi/session.py (sys.settrace) and every access to Session.sequence_number is a
     scheduling point as well;
-  * the keep-alive is the real `loop` closure made by rmcp.call_repeatedly(interval,
-    rmcp._get_device_id) - obtained with a shim for the module global `threading` so that
-    no timer thread is started and Event.wait never waits - run as an ordinary
-    scheduled thread.
+  * the keep-alive is the real `loop` closure made by rmcp.call_repeatedly(interval, job)
+    - obtained with a shim for the module global `threading` so that no timer thread is
+    started and Event.wait never waits - run as an ordinary scheduled thread; `job` is
+    exactly the callable (and args) that the REAL establish_session of the code under
+    test hands to call_repeatedly (captured by keepalive_tie, re-bound to the interface
+    object of the run), whether or not it ever touches the lock.
 
 Exactly one thread runs at any time.  A run is a function of (configuration, list of
 thread choices): choosing a thread lets it perform the action it is parked at and run
@@ -219,8 +221,18 @@ class ScriptedSocket:
 
     def sendto(self, pdu, addr):
         tid = self.s.park('snd')
-        p = parse_tx(pdu)
+        b = bytes(pdu)
         serial = self.nrx
+        if b[:4] == bytes([6, 0, 0xff, 6]):
+            # ASF presence ping (Rmcp.ping): the BMC answers with a pong
+            self.nrx += 1
+            self.wire.append(('atx', tid, self.reqidx.get(tid, 0), serial))
+            pong = (bytes([6, 0, 0xff, 6]) + (4542).to_bytes(4, 'big') + bytes([0x40, b[9] if len(b) > 9 else 0, 0, 16])
+                    + (4542).to_bytes(4, 'big') + bytes(4) + bytes([0x81, 0]) + bytes(6))
+            self.pending.append((serial, pong))
+            self.s.did(tid, 'snd')
+            return len(pdu)
+        p = parse_tx(pdu)
         self.nrx += 1
         self.wire.append(('tx', tid, self.reqidx.get(tid, 0), p, serial))
         self.pending.append((serial, bmc_answer(p, serial)))
@@ -233,8 +245,11 @@ class ScriptedSocket:
             self.s.did(tid, 'tmo')
             raise socket.timeout('timed out')
         serial, d = self.pending.pop(0)
-        p = d[14:]
-        self.wire.append(('rx', tid, serial, {'seq': p[4] >> 2, 'netfn': p[1] >> 2, 'cmd': p[5]}))
+        if d[3] == 6:
+            self.wire.append(('arx', tid, serial))
+        else:
+            p = d[14:]
+            self.wire.append(('rx', tid, serial, {'seq': p[4] >> 2, 'netfn': p[1] >> 2, 'cmd': p[5]}))
         self.s.did(tid, 'rcv')
         return (d, ('bmc', 623))
 
@@ -282,13 +297,40 @@ class ShimThreading:
         return getattr(self._real, k)
 
 
-def keepalive_loop(R, rmcp, n):
-    """the real closure `loop` of call_repeatedly, as establish_session creates it"""
+_JOB = {}
+
+
+def captured_job():
+    """what the REAL establish_session of the code under test hands to call_repeatedly
+    (captured once per process by keepalive_tie): {'func', 'args', 'owner'} or None"""
+    if 'job' not in _JOB:
+        try:
+            keepalive_tie()
+        except Exception:  # noqa
+            _JOB.setdefault('job', None)
+    return _JOB.get('job')
+
+
+def bind_job(rmcp):
+    """the captured keep-alive job, re-bound to the interface object of this run;
+    falls back to the modelled job (_get_device_id) when nothing could be captured"""
+    job = captured_job()
+    if not job or not callable(job['func']):
+        return rmcp._get_device_id, ()
+    f, owner = job['func'], job['owner']
+    if getattr(f, '__self__', None) is owner and hasattr(f, '__func__'):
+        f = f.__func__.__get__(rmcp, type(rmcp))
+    args = tuple(rmcp if a is owner else a for a in (job['args'] or ()))
+    return f, args
+
+
+def keepalive_loop(R, rmcp, n, func, args=()):
+    """the real closure `loop` of call_repeatedly around the keep-alive job"""
     cap, waits = [], []
     real = R.threading
     R.threading = ShimThreading(real, n, cap, waits)
     try:
-        R.call_repeatedly(rmcp.keep_alive_interval, rmcp._get_device_id)
+        R.call_repeatedly(rmcp.keep_alive_interval, func, *args)
     finally:
         R.threading = real
     if len(cap) != 1 or not callable(cap[0]):
@@ -307,6 +349,7 @@ def run_schedule(cfg, choices, fine=False, budget=None):
     from pyipmi.msgs import create_request_by_name
     import pyipmi.session as SESS
 
+    captured_job()      # in the main thread, before any scheduled thread exists
     s = Sched(choices, budget or (40000 if fine else 4000))
 
     class SRmcp(R.Rmcp):
@@ -386,7 +429,15 @@ def run_schedule(cfg, choices, fine=False, budget=None):
                 sys.settrace(tracer)
             try:
                 if kind == 'keepalive':
-                    loop, waits = keepalive_loop(R, intf, len(reqs))
+                    job, jargs = bind_job(intf)
+
+                    def counted(*a):
+                        before = len(out)
+                        r = job(*a)
+                        if len(out) == before:      # a job that does not go through send_and_receive
+                            out.append(['done', ''])
+                        return r
+                    loop, waits = keepalive_loop(R, intf, len(reqs), counted, jargs)
                     try:
                         loop()
                     except Abort:
@@ -430,8 +481,12 @@ def run_schedule(cfg, choices, fine=False, budget=None):
         if ev[0] == 'tx':
             p = ev[3]
             wire.append(['tx', ev[1], ev[2], p['sseq'], p['seq'], p['netfn'], p['cmd'], ev[4]])
-        else:
+        elif ev[0] == 'rx':
             wire.append(['rx', ev[1], ev[3]['seq'], ev[3]['netfn'], ev[3]['cmd'], ev[2]])
+        elif ev[0] == 'atx':        # ASF ping sent: thread, request index, datagram number
+            wire.append(['atx', ev[1], ev[2], ev[3]])
+        else:                       # ASF pong read: thread, number of the datagram it answers
+            wire.append(['arx', ev[1], ev[2]])
     return {
         'status': s.status,
         'taken': s.taken,
@@ -441,6 +496,7 @@ def run_schedule(cfg, choices, fine=False, budget=None):
         'results': [results.get(t, []) for t in range(len(cfg['threads']))],
         'enabled_log': s.enabled_log,
         'lock_owner': lock.owner,
+        'keepalive_job': getattr(bind_job(intf)[0], '__name__', '?'),
         'final_nsn': intf.__dict__.get('_c14_nsn'),
         'final_sseq': sess.__dict__.get('_c14_sq'),
     }
@@ -502,11 +558,13 @@ def keepalive_tie(interval=7):
     finally:
         R.threading = real
     d = {'threads_created': len(cap), 'exchanges': intf._sock.cmds}
+    _JOB['job'] = None
     if len(cap) != 1 or not callable(cap[0]):
         return False, d
     loop = cap[0]
     fv = dict(zip(loop.__code__.co_freevars, [c.cell_contents for c in (loop.__closure__ or ())]))
     func = fv.get('func')
+    _JOB['job'] = {'func': func, 'args': fv.get('args') or (), 'owner': intf}
     d.update({'interval': fv.get('interval'), 'func': getattr(func, '__name__', repr(func)), 'args': repr(fv.get('args')),
               'activated': sess.activated, 'sequence_number': sess.sequence_number})
     ok = (func == intf._get_device_id and fv.get('interval') == interval and fv.get('args') == ()
